@@ -424,6 +424,30 @@ def case_root(mon, xs, ys, xl, xh, which):
             for k in range(33)]
     fv = [f(g) for g in grid]
     slope = max(abs((b - a) / (grid[1] - grid[0])) for a, b in zip(fv, fv[1:]))
+    # a steep stretch can be much narrower than 1/32 of the interval (a
+    # 9-point table rising by 1e2 in the last 0.02 of an interval 11 wide):
+    # refine the estimate on 1024 sub-intervals in floating point
+    # (in the library's own node order: it sorts the abscissae, and the
+    # conditioning of a Newton form depends on the order of its nodes)
+    Pf = Poly(sx, [P(v) for v in sx]) if which == "root" else \
+        Poly(sx, [P.d(v) for v in sx])
+    fx = [float(v) for v in Pf.x]
+    fc = [float(v) for v in Pf.c]
+
+    def feval(t):
+        v = fc[-1]
+        for i in range(len(fc) - 2, -1, -1):
+            v = fc[i] + (t - fx[i]) * v
+        return v
+    flo, fhi = float(lo), float(hi)
+    hstep = (fhi - flo) / 1024.0
+    prevv = feval(flo)
+    fine = 0.0
+    for k in range(1, 1025):
+        cur = feval(flo + k * hstep)
+        fine = max(fine, abs(cur - prevv) / hstep)
+        prevv = cur
+    slope = max(float(slope), fine)
     ulp = math.ulp(max(abs(lo), abs(hi), 1e-300))
     if float(slope) * ulp * 8.0 > 1e-10:
         mon.refusal("tolerance-1e-10-unreachable-in-double(not judged)")
@@ -431,19 +455,20 @@ def case_root(mon, xs, ys, xl, xh, which):
     # ... and the rounding of the evaluation itself: the Newton form sums
     # terms c_k * prod(x - x_i) that cancel; its value carries about
     # 2**-52 * sum |term| of noise (measured: 0.6e-10..1.2e-10 where this
-    # bound says 8e-10), so |f(x)| <= 1e-10 may never be met
-    Q = P if which == "root" else Poly(sx, [P.d(v) for v in sx])
+    # bound says 8e-10, 1e-10..3.6e-10 where it says about 3e-10), so
+    # |f(x)| <= 1e-10 may never be met once the bound exceeds the tolerance
+    Q = Pf
     qx = [float(v) for v in Q.x]
     qc = [abs(float(v)) for v in Q.c]
     cond = 0.0
-    for g in grid[::4]:
+    for g in grid:
         gf = float(g)
         term, tot = 1.0, 0.0
         for k, ck in enumerate(qc):
             tot += ck * term
             term *= abs(gf - qx[k])
         cond = max(cond, tot)
-    if cond * 2.0 ** -52 > 4e-10:
+    if cond * 2.0 ** -52 > 1e-10:
         mon.refusal("tolerance-1e-10-below-evaluation-noise(not judged)")
         return
     signs = sum(1 for a, b in zip(sorted(zip(xs, ys)), sorted(zip(xs, ys))[1:])
